@@ -576,9 +576,13 @@ func callSSA(i *interpreter, caller *frame, callpos token.Pos, fn *ssa.Function,
 	for i, fv := range fn.FreeVars {
 		fr.env[fv] = env[i]
 	}
+	prevFr := curFr
+	curFr = fr
 	for fr.block != nil {
 		runFrame(fr)
+		curFr = fr
 	}
+	curFr = prevFr
 	// Destroy the locals to avoid accidental use after return.
 	for i := range fn.Locals {
 		fr.locals[i] = bad{}
